@@ -1,7 +1,10 @@
 use std::sync::Arc;
 
+#[cfg(not(feature = "verif"))]
 use parking_lot::RwLock;
 use rawdb::Region;
+#[cfg(feature = "verif")]
+use rawdb::verif::sync::RwLock;
 
 mod inner;
 
